@@ -524,6 +524,11 @@ class Engine:
             if q in s.classes: return [(st, ("class", q))]
             if q in s.funcs: return [(st, ("func", q))]
             raise Unsupported(f"module attr {q}")
+        if isinstance(base, tuple) and base == ("builtin", "dict") and attr == "fromkeys":
+            def fromkeys(e_, st_, args, ctx_, node_):
+                if not (1 <= len(args) <= 2 and isinstance(args[0], (list, tuple)) and all(not is_sym(k) for k in args[0])): raise Unsupported("dict.fromkeys form")
+                return [(st_, {k: (args[1] if len(args) == 2 else None) for k in args[0]})]
+            return [(st, ("abstract", fromkeys))]
         if isinstance(base, tuple) and base and base[0] in ("pymodule", "pyattr"):
             return [(st, ("pyattr", base[1] + "." + attr))]
         if isinstance(base, (SBytes, SStr, list, str, SList, dict, GhostList, SStrList)):
@@ -1231,9 +1236,16 @@ class Engine:
         return [(st1, vs if isinstance(vs, Raised) else list(vs)) for st1, vs in s.eval_seq(e.elts, st, ctx)]
     def e_Dict(s, e, st, ctx):
         outs = []
-        for st1, vs in s.eval_seq(list(e.keys) + list(e.values), st, ctx):
+        keys = [k if k is not None else ast.Constant(value=None) for k in e.keys]          # `**mapping` entries have no key expression
+        for st1, vs in s.eval_seq(keys + list(e.values), st, ctx):
             if isinstance(vs, Raised): outs.append((st1, vs)); continue
-            k = len(e.keys); outs.append((st1, dict(zip(vs[:k], vs[k:]))))
+            k = len(keys); d = {}
+            for key_node, kv, vv in zip(e.keys, vs[:k], vs[k:]):
+                if key_node is None:
+                    if type(vv) is not dict: raise Unsupported(f"** of a non-dictionary line {e.lineno}")
+                    d.update(vv)
+                else: d[kv] = vv
+            outs.append((st1, d))
         return outs
 
     # ------------------------------------------------------------------ statements
